@@ -566,6 +566,14 @@ class SigWorld(World):
                 return await run(name, sig)
         return validator
 
+    def signer_obj(self, kind, key, for_interest):
+        """one signer object per key for the whole run, as an application keeps it (it signs packet after packet)"""
+        cache = self.__dict__.setdefault('_signer_objs', {})
+        k = (kind, key, for_interest)
+        if k not in cache:
+            cache[k] = make_signer(kind, key, for_interest)
+        return cache[k]
+
     # ---- flows --------------------------------------------------------------------------------
     async def _flow(self, flow):
         fid = flow['id']
@@ -579,7 +587,7 @@ class SigWorld(World):
         flow['_signed_bytes'] = rec
         if flow['dir'] == 'data':
             # producer answers with signed Data; the Data is what the middlebox touches
-            signer = None if flow['signer'] == 'none' else RecordingSigner(make_signer(flow['signer'], flow['key'], False), rec)
+            signer = None if flow['signer'] == 'none' else RecordingSigner(self.signer_obj(flow['signer'], flow['key'], False), rec)
             content = bytes((i * 3 + cfid) & 0xff for i in range(src['content_len']))
             mi = enc.MetaInfo(content_type=src.get('ctype', 0), freshness_period=src.get('fresh'),
                               final_block_id=None if src.get('final') is None else bytes(tlvref.name_from_uri('/' + src['final'])[0]))
@@ -621,7 +629,7 @@ class SigWorld(World):
             self._detach(self.papp, self.pfe, name)
         else:
             # consumer sends a parameterised / signed Interest; the Interest is what the middlebox touches
-            signer = None if flow['signer'] == 'none' else RecordingSigner(make_signer(flow['signer'], flow['key'], True), rec)
+            signer = None if flow['signer'] == 'none' else RecordingSigner(self.signer_obj(flow['signer'], flow['key'], True), rec)
             app_param = bytes((i * 5 + fid) & 0xff for i in range(flow['app_param_len']))
             reached = []
 
